@@ -122,7 +122,7 @@ Ltac split_ifs H :=
           end).
 Ltac open_i i :=
   destruct i as [s0 pc dqf r0 av];
-  destruct s0 as [f inst w ar nd he hc hr pe kr]; destruct f as [fc fw fn fd fr];
+  destruct s0 as [f inst w ar nd he hc hr pe kr ka]; destruct f as [fc fw fn fd fr];
   destruct dqf as [dc dw dn dd dr].
 Ltac unf H :=
   unfold phase, install, refs_unregister, finalize, cancel_callout, cont, m_finalize, m_needs_event_loop, refs_needs_rearm,
@@ -218,4 +218,18 @@ Proof.
   all: split_ifs H.
   all: try discriminate.
   all: first [injection H as <- <- | injection H as <- <- <-]; cbn; intros X; try discriminate; auto.
+Qed.
+
+(* a phase unregisters a registered unote only on the kevent queue of its kind, for direct unotes and timers anywhere, or in
+   cancel_and_wait's locked path *)
+Lemma phase_unreg k q o i :
+  registered (i_src i) = true -> registered (res_src (phase k q o i)) = false ->
+  queue_eqb q (dkq k) = true \/ k_direct k = true \/ k_timer k = true \/ in_cd (i_pc i) = true.
+Proof.
+  destruct (phase k q o i) eqn:H; cbn [res_src].
+  all: open_i i; destruct k as [kt kd kre]; destruct o as [o1 o2 o3 o4 o5 o6 o7 o8]; unf H; destruct pc.
+  all: split_ifs H.
+  all: try discriminate.
+  all: first [injection H as <- <- | injection H as <- <- <-]; unfold registered, dkq; cbn; intros X Y; auto; try congruence.
+  all: try (destruct q; cbn; auto; fail).
 Qed.
